@@ -38,6 +38,7 @@ type Config struct {
 	ManifestSize   int64
 	Recycle        bool
 	Concurrency    int
+	Remote         bool // remote (in-memory) object storage configured: external ingestion possible
 }
 
 func Configs() map[string]Config {
@@ -62,6 +63,10 @@ func Configs() map[string]Config {
 		AutoCompact: true, MaintEvery: 2})
 	add(Config{Name: "nowal", FMV: pebble.FormatNewest, DisableWAL: true, MemTableSize: 64 << 10, L0Threshold: 2,
 		SmallFiles: true, AutoCompact: true, MaintEvery: 3})
+	add(Config{Name: "ext", FMV: pebble.FormatNewest, MemTableSize: 64 << 10, L0Threshold: 2, SmallFiles: true,
+		AutoCompact: true, MaintEvery: 3, Remote: true})
+	add(Config{Name: "extman", FMV: pebble.FormatNewest, MemTableSize: 64 << 10, L0Threshold: 4, SmallFiles: true,
+		AutoCompact: false, MaintEvery: 4, Remote: true, BlockSize: 32})
 	add(Config{Name: "nolazy", FMV: pebble.FormatNewest, MemTableSize: 64 << 10, L0Threshold: 2, SmallFiles: true,
 		AutoCompact: true, MaintEvery: 2, NoLazyCombined: true})
 	return m
@@ -98,6 +103,10 @@ type Runner struct {
 	sstN    int
 	Listener *pebble.EventListener
 	Crash    *crashCtl // crash enumeration (nil outside the crash engine)
+	// BeforeIngest, if set, runs once right before the next DB.Ingest call (after the external tables were written)
+	BeforeIngest func()
+	// Logger replaces the default logger (whose Fatalf panics)
+	Logger pebble.Logger
 }
 
 func (r *Runner) MakeOptions() *pebble.Options {
@@ -108,6 +117,12 @@ func (r *Runner) MakeOptions() *pebble.Options {
 		FormatMajorVersion: c.FMV,
 		KeySchema:          "",
 		Logger:             quietLogger{},
+	}
+	if r.Logger != nil {
+		o.Logger = r.Logger
+	}
+	if c.Remote {
+		r.setRemote(o)
 	}
 	o.BlockPropertyCollectors = []func() pebble.BlockPropertyCollector{sstable.NewTestKeysBlockPropertyCollector}
 	if c.MemTableSize != 0 {
@@ -137,6 +152,10 @@ func (r *Runner) MakeOptions() *pebble.Options {
 	}
 	o.DisableWAL = c.DisableWAL
 	o.DisableAutomaticCompactions = !c.AutoCompact
+	if !c.AutoCompact {
+		// nobody compacts L0 behind the client's back: never stall writes on the L0 file count
+		o.L0StopWritesThreshold = 1 << 20
+	}
 	if c.ManifestSize != 0 {
 		o.MaxManifestFileSize = c.ManifestSize
 	}
@@ -511,6 +530,10 @@ func (r *Runner) Exec(e Ev) {
 			out["a"], out["b"] = e.I("a"), e.I("b")
 		}
 		var err error
+		if f := r.BeforeIngest; f != nil {
+			r.BeforeIngest = nil
+			f() // the external tables are built: start the concurrent job now
+		}
 		r.begin(out)
 		if e.S("op") == "ingest" {
 			err = r.DB.Ingest(ctx, paths)
@@ -524,6 +547,8 @@ func (r *Runner) Exec(e Ev) {
 		}
 		r.end(out)
 		r.afterWrite()
+	case "extingest":
+		r.execExtIngest(e)
 	case "excise":
 		out := Ev{"op": "excise", "a": e.I("a"), "b": e.I("b"), "sync": !r.Cfg.DisableWAL}
 		r.begin(out)
